@@ -254,6 +254,9 @@ def new_socket_connection(
         source_address: Optional[HostPort] = None,
 ) -> socket.socket:
     conn = None
+    # Url keeps IPv6 literals bracketed ("[::1]"); sockets and the resolver want them bare.
+    if addr[0].startswith('[') and addr[0].endswith(']'):
+        addr = (addr[0][1:-1], addr[1])
     try:
         ip = ipaddress.ip_address(addr[0])
         if ip.version == 4:
